@@ -85,9 +85,17 @@ structure Entry where
   elem : Elem
 deriving Repr
 
-/-- `sort_unstable_by_key` is modelled by the stable merge sort (unique result when keys are distinct) -/
+/-- insert before the first element that is not smaller (stable) -/
+def insertSorted {α} (le : α → α → Bool) (a : α) : List α → List α
+  | [] => [a]
+  | b :: bs => if le a b then a :: b :: bs else b :: insertSorted le a bs
+
+/-- stable insertion sort (structural recursion, so closed instances reduce in the kernel) -/
+def insertionSort {α} (le : α → α → Bool) (l : List α) : List α := l.foldr (insertSorted le) []
+
+/-- `sort_unstable_by_key` is modelled by a stable sort (the result is unique when keys are distinct) -/
 def sortKeyed {α} (l : List (SortKey × α)) : List (SortKey × α) :=
-  l.mergeSort (fun a b => a.1.le b.1)
+  insertionSort (fun a b => a.1.le b.1) l
 
 /-- pre-order walk over the elements rendered as structs (text-only children are skipped),
 children visited in the order given by `s` -/
